@@ -41,6 +41,9 @@ pub struct SInner {
     pub schedule: VecDeque<String>,     // gating order of mutating calls for concurrent runs
     pub done: Vec<String>,
     pub crash_check: bool,
+    /// one-shot: after the first successful get of this class ("ckpt", "man", "seg") the store holds this image
+    /// instead (another writer published in between)
+    pub swap_after: Option<(String, BTreeMap<String, Vec<u8>>)>,
 }
 
 #[derive(Clone)]
@@ -237,6 +240,13 @@ impl ObjectStore for ScriptedObjectStore {
                     .cloned()
                     .ok_or_else(|| IoError::new(ErrorKind::NotFound, format!("Key not found: {key}")))
             };
+            if r.is_ok() {
+                let mut g = self.inner.lock().unwrap();
+                if g.swap_after.as_ref().map(|(k, _)| k == kind).unwrap_or(false) {
+                    let (_, img) = g.swap_after.take().unwrap();
+                    g.objs = img;
+                }
+            }
             self.log(json!({"a": "call", "who": self.actor, "op": "get", "key": key, "kind": kind, "id": id,
                             "res": if fault.as_deref() == Some("corrupt") { "corrupt" } else if r.is_ok() { "ok" } else if fault.is_some() { "fail" } else { "notfound" }}));
             r
